@@ -1,7 +1,8 @@
 (* Props/C26.v — the `#if` core of the C preprocessor (DESIGN §4 C26; macro expansion is not modelled).
    Spec: Spec/CIntSpec.v (pp_eval), Spec/CPPGrammar.v (g_parse). Model: Gen/ppif.v (OP_MAP regenerated from
    ppci/lang/c/preprocessor.py), Model/PPIf.v; Model/PPIfOrig.v = "/" and "%" before fixes/C26-if-division.diff. *)
-From PV Require Import Lib.Py Spec.CIntSpec Spec.CPPGrammar Gen.ppif Model.PPIf Model.PPIfOrig Proofs.C26_ppif.
+From PV Require Import Lib.Py Spec.CIntSpec Spec.CPPGrammar Gen.ppif Model.PPIf Model.PPIfOrig Proofs.C26_ppif
+                       Proofs.C26_eval Proofs.C26_parse.
 From Coq Require Import String.
 Open Scope Z_scope.
 
@@ -81,6 +82,55 @@ Proof.
   exact (proj1 (forallb_forall _ _) H2 ts Ht).
 Qed.
 Print Assumptions c26_if_parse_ternary_nesting_bounded.
+
+(* ================= unbounded theorems (supersede the *_bounded ones above, which are kept) ================= *)
+
+(* every signed #if expression tree, of any depth: whenever C defines the value (pp_eval e = Some v: every
+   intermediate result lies within intmax_t, no division by zero, shift counts in range), _eval_tree with the
+   regenerated OP_MAP returns exactly v *)
+Theorem c26_if_eval_signed : forall e v,
+  signed_e e = true -> pp_eval e = Some v -> eval_tree (tree_of e) = Ok v.
+Proof. exact if_eval_signed. Qed.
+Print Assumptions c26_if_eval_signed.
+
+(* precedence climbing is correct: for EVERY expression tree e, the token sequence the reference grammar
+   generates for e with minimal parentheses is parsed to the tree of e (binary levels, left associativity,
+   right-associative ?:, unary operators, parentheses), with any fuel >= need e *)
+Theorem c26_if_parse_precedence : forall e f,
+  (need e <= f)%nat -> parse_line f (map tok_of (g_unparse e)) = Ok (tree_of e).
+Proof. intros e f H. now apply parse_unparse. Qed.
+Print Assumptions c26_if_parse_precedence.
+
+(* end to end for a signed #if line written with minimal parentheses *)
+Theorem c26_if_line_signed : forall e v,
+  signed_e e = true -> pp_eval e = Some v ->
+  bind (parse_line (need e) (map tok_of (g_unparse e))) eval_tree = Ok v.
+Proof.
+  intros e v S E. rewrite (parse_unparse e (need e) (le_n _)). unfold bind. exact (if_eval_signed e v S E).
+Qed.
+Print Assumptions c26_if_line_signed.
+
+(* BOUNDED validation of g_unparse itself: the reference grammar parser reads g_unparse e back as e (7 nested
+   shapes x 18 x 18 operator pairs), and blevel is the operator's position in the grammar's level list *)
+Theorem c26_if_unparse_grammar_bounded :
+  forallb (fun o1 => forallb (fun o2 => forallb roundtrip (shapes o1 o2)) all_binops) all_binops = true /\
+  (forall e, roundtrip e = true <->
+             match g_parse 100 (g_unparse e) with Some e' => pexpr_eqb e e' = true | None => False end).
+Proof.
+  split; [exact unparse_roundtrip_bounded|]. intros e. unfold roundtrip.
+  generalize (g_parse 100 (g_unparse e)). intros [e'|]; [tauto|split; [discriminate|tauto]].
+Qed.
+Print Assumptions c26_if_unparse_grammar_bounded.
+
+(* signed overflow: C leaves `#if 9223372036854775807 + 1 < 0` undefined (pp_eval = None, so the theorems above
+   demand nothing); ppci computes in unbounded integers and answers 0, a 64-bit wrap-around (gcc, with a warning)
+   answers 1. Recorded as a finding, not as a violation. *)
+Theorem c26_if_eval_overflow_unbounded :
+  let e := PBin BLt (PBin BAdd (PLit false 9223372036854775807) (PLit false 1)) (PLit false 0) in
+  pp_eval e = None /\ eval_tree (tree_of e) = Ok 0 /\
+  CIntSpec.b2z (convert dm_pp TLLong (9223372036854775807 + 1) <? 0) = 1.
+Proof. vm_compute. repeat split. Qed.
+Print Assumptions c26_if_eval_overflow_unbounded.
 
 Example c26_nonvacuous :
   In ["-"; "*"; "?"]%string seqs_upto3 /\
